@@ -29,7 +29,7 @@
 #define SX_REL0		6	/* owner's spin-unlock count when the (un)registration call began */
 
 #define NGROUP 256
-static struct sgroup { int sig, scope, open; uint64_t seq; } sgroup[NGROUP];
+static struct sgroup { int sig, scope, open, sole_excl; uint64_t seq; } sgroup[NGROUP];
 static int nsgroup;
 static long spin_releases[SIMK_MAXT];
 /* a delivery whose handler has been entered but has not yet walked the process-wide tree */
@@ -180,6 +180,12 @@ static int sig_walk(int sig, int scope, uint64_t seq)
 		sgroup[nsgroup].scope = scope;
 		sgroup[nsgroup].seq = seq;
 		sgroup[nsgroup].open = 1;
+		/* with a single exclusive interest in the set it is certain which one was woken */
+		sgroup[nsgroup].sole_excl = -1;
+		if (n_excl == 1)
+			for (i = 0; i < n_set; i++)
+				if (PL->obj[set[i]].p[1] & IV_SIGNAL_FLAG_EXCLUSIVE)
+					sgroup[nsgroup].sole_excl = set[i];
 		nsgroup++;
 	}
 	return n_set;
@@ -231,12 +237,38 @@ static void obs_lock_event(int tid, void *addr, int acquired, int spin)
 		pend_deliv[tid].stage = 2;
 		sig_walk(pend_deliv[tid].sig, -1, pend_deliv[tid].seq);
 	} else if (pend_deliv[tid].stage == 0 && pend_unreg[tid]) {
-		int id = pend_unreg[tid] - 1, i;
+		int id = pend_unreg[tid] - 1, i, g;
 		pend_unreg[tid] = 0;
 		for (i = 0; i < PL->nobj; i++)
 			if (i != id && PL->obj[i].kind == K_SIGNAL && PL->obj[i].p[0] == PL->obj[id].p[0] &&
 			    scope_of(i) == scope_of(id) && sig_in_tree(i))
 				RO[i].xi[SX_WAKES]++;
+		/* The interest being unregistered is known to hold an undelivered wake-up (it was the only
+		 * exclusive one when the signal arrived and has not run since): the delivery is dispatched
+		 * afresh over what remains in the tree at this instant, with the usual fan-out rule. */
+		for (g = 0; g < nsgroup; g++) {
+			int n_rem = 0, n_excl = 0, last_excl = -1;
+			if (!sgroup[g].open || sgroup[g].sole_excl != id)
+				continue;
+			for (i = 0; i < PL->nobj; i++)
+				if (i != id && PL->obj[i].kind == K_SIGNAL && PL->obj[i].p[0] == PL->obj[id].p[0] &&
+				    scope_of(i) == scope_of(id) && sig_in_tree(i)) {
+					n_rem++;
+					if (PL->obj[i].p[1] & IV_SIGNAL_FLAG_EXCLUSIVE) {
+						n_excl++;
+						last_excl = i;
+					}
+				}
+			if (n_rem > 0 && n_excl == 0) {
+				for (i = 0; i < PL->nobj; i++)
+					if (i != id && PL->obj[i].kind == K_SIGNAL && PL->obj[i].p[0] == PL->obj[id].p[0] &&
+					    scope_of(i) == scope_of(id) && sig_in_tree(i) && RO[i].xi[SX_OWED] < (int64_t)sgroup[g].seq)
+						RO[i].xi[SX_OWED] = (int64_t)sgroup[g].seq;
+				sgroup[g].open = 0;
+			} else {
+				sgroup[g].sole_excl = n_excl == 1 ? last_excl : -1;
+			}
+		}
 	}
 }
 
@@ -365,10 +397,10 @@ int ext_op(struct rthr *th, const struct pop *op)
 		return 1;
 	case OP_BURST: {
 		long n = op->a, i;
-		struct pop p = *op;
-		p.op = OP_POST;
+		if (op->d < 0 || op->d >= PL->nobj)
+			return 0;
 		for (i = 0; i < n && !have_viol(); i++)
-			if (!exec_op(th, &p))
+			if (!op_post(th, (int)op->d, 0))
 				break;
 		return i > 0;
 	}
